@@ -116,6 +116,20 @@ func mkSource(kind string, n num) (interface{}, bool) {
 		if n.I == nil {
 			return nil, false
 		}
+		// base-10 spellings: plain, zero-padded, explicit plus sign (chosen by the value, so that all occur)
+		digits, sign := new(big.Int).Abs(n.I).String(), ""
+		if n.I.Sign() < 0 {
+			sign = "-"
+		}
+		switch new(big.Int).Mod(new(big.Int).Abs(n.I), big.NewInt(3)).Int64() {
+		case 1:
+			return sign + "00" + digits, true
+		case 2:
+			if sign == "" {
+				sign = "+"
+			}
+			return sign + "0" + digits, true
+		}
 		return n.I.String(), true
 	case "float32", "float64":
 		var f float64
